@@ -11,3 +11,10 @@ package content
 //@   modifies bufWriter.buf, mem[uint8]
 //@   ensures  len:  len(w.buf) == len(p)
 //@   ensures  same: forall i int :: 0 <= i && i < len(p) ==> w.buf[i] == old(p[i])
+
+// readWrapper hides the source's other interfaces from io.Copy; it must hand through exactly what the
+// source answered: the count together with the error (a reader may return its last bytes with io.EOF).
+//@ func (readWrapper).Read
+//@   requires nn:      r.r != nil
+//@   modifies mem[uint8], world.rdN, world.ucErr
+//@   ensures  through: result0 == world.rdN && result1 == world.ucErr
